@@ -8,6 +8,10 @@ from ..engines import labelkind as LK
 
 
 def run(ctx):
+    # language-level slips in the modules the property is anchored in (engine Y)
+    from ..engines import gotchas as GY
+    GY.run(ctx, ('equiv_db', 'rule_db.base', 'specification_extrator'))
+    ctx.floor("Y", 1)
     ctx.extra["explanation"] = (
         "static analysis (ast, no execution) of equiv_db.py: equivalence and verification are decided "
         "through find (self[x]) and never through raw parent pointers; the verified mark lives on "
